@@ -15,11 +15,14 @@
                                  "none" iff Cands = {} (and the group has more than one node) *)
 EXTENDS Integers, Sequences, FiniteSets, TLC, Json
 
-CONSTANTS Nodes, MaxEvents
+CONSTANTS Nodes, MaxEvents,
+          Stricts, Excl,   \* the shapes of Select calls in the history (subsets of BOOLEAN and of Nodes \cup {0})
+          Fams, Doms       \* the network types that appear in the history (subsets of {"4","6"} and {"data","dns","tcp"})
 
-Fams == {"4", "6"}
-Doms == {"data", "dns", "tcp"}
-Types == {[dom |-> d, fam |-> f] : d \in Doms, f \in Fams}
+AllFams == {"4", "6"}
+AllDoms == {"data", "dns", "tcp"}
+Types == {[dom |-> d, fam |-> f] : d \in AllDoms, f \in AllFams}          \* every type exists (and starts alive)
+EvTypes == {[dom |-> d, fam |-> f] : d \in Doms, f \in Fams}           \* the ones the history touches
 T(d, f) == [dom |-> d, fam |-> f]
 Policies == {"min", "random"} \cup {"fixed1"} \cup (IF Cardinality(Nodes) > 1 THEN {"fixed2"} ELSE {})
 FixedIndex(p) == IF p = "fixed1" THEN 1 ELSE 2
@@ -60,9 +63,9 @@ Select(t, strict, ex) ==
   /\ hist' = Append(hist, Rec("select", NoNode, t, [strict |-> strict, ex |-> ex, policy |-> policy, expect |-> Expect(t, strict, ex)]))
 
 Next == /\ Len(hist) < MaxEvents
-        /\ \/ \E n \in Nodes, t \in Types : Kill(n, t) \/ Revive(n, t)
+        /\ \/ \E n \in Nodes, t \in EvTypes : Kill(n, t) \/ Revive(n, t)
            \/ \E p \in Policies : SetPolicy(p)
-           \/ \E t \in Types, s \in BOOLEAN, ex \in Nodes \cup {NoNode} : Select(t, s, ex)
+           \/ \E t \in EvTypes, s \in Stricts, ex \in Excl : Select(t, s, ex)
 Spec == Init /\ [][Next]_vars
 
 (* ---------------------------------------------------------------- property layer *)
@@ -77,4 +80,6 @@ OfferWhenPossible == \A i \in Selects : hist[i].x.expect.kind # "none" => hist[i
 
 Behaviour == [nodes |-> Cardinality(Nodes), init |-> policy0, hist |-> hist]
 Emit == Len(hist) = MaxEvents => PrintT(<<"BEHAVIOUR", ToJson(Behaviour)>>)
+\* exhaustive small configurations: only histories that end in a selection are worth replaying
+EmitSel == (Len(hist) = MaxEvents /\ hist[Len(hist)].ev = "select") => PrintT(<<"BEHAVIOUR", ToJson(Behaviour)>>)
 =============================================================================
